@@ -627,6 +627,7 @@ int vnacal_save(vnacal_t *vcp, const char *pathname)
     yaml_version_directive_t version = { 1, 1 };
     yaml_tag_directive_t tags[1];
     yaml_emitter_t emitter;
+    bool delete_emitter = false;
     bool delete_document = false;
     int t_root, t_properties, t_calibrations;
 
@@ -903,6 +904,7 @@ int vnacal_save(vnacal_t *vcp, const char *pathname)
 		vcp->vc_filename, strerror(errno));
 	goto error;
     }
+    delete_emitter = true;
     yaml_emitter_set_output_file(&emitter, fp);
     yaml_emitter_set_encoding(&emitter, YAML_UTF8_ENCODING);
     yaml_emitter_set_canonical(&emitter, 0);
@@ -936,6 +938,7 @@ int vnacal_save(vnacal_t *vcp, const char *pathname)
 	goto error;
     }
     (void)yaml_emitter_delete(&emitter);
+    delete_emitter = false;
     if (fclose(fp) == -1) {
 	fp = NULL;	/* the stream is gone even when fclose fails */
 	_vnacal_error(vcp, VNAERR_SYSTEM, "fclose: %s: %s",
@@ -947,6 +950,9 @@ int vnacal_save(vnacal_t *vcp, const char *pathname)
 error:
     if (delete_document) {
 	(void)yaml_document_delete(&document);
+    }
+    if (delete_emitter) {
+	(void)yaml_emitter_delete(&emitter);
     }
     if (fp != NULL) {
 	(void)fclose(fp);
